@@ -214,14 +214,14 @@ Lemma fixed_rev_spec : forall k r, 0 <= r < 10 ^ Z.of_nat k ->
   le_val 10 (fixed_rev k r) = r /\ Forall (digit 10) (fixed_rev k r) /\ List.length (fixed_rev k r) = k.
 Proof.
   induction k as [|k IH]; intros r Hr.
-  - cbn in Hr. cbn. repeat split; [lia|constructor].
+  - cbn in Hr. cbn. split; [lia|]. split; [constructor|reflexivity].
   - rewrite Nat2Z.inj_succ, Z.pow_succ_r in Hr by lia.
     assert (Hq : 0 <= r / 10 < 10 ^ Z.of_nat k).
     { split; [apply Z.div_pos; lia|]. apply Z.div_lt_upper_bound; lia. }
     destruct (IH (r / 10) Hq) as (Hv & Hd & Hl).
     cbn [fixed_rev le_val List.length]. rewrite Hv, Hl.
     pose proof (Z.div_mod r 10 ltac:(lia)). pose proof (Z.mod_pos_bound r 10 ltac:(lia)).
-    repeat split; [lia| |reflexivity]. constructor; [unfold digit; lia|exact Hd].
+    split; [lia|]. split; [|reflexivity]. constructor; [unfold digit; lia|exact Hd].
 Qed.
 
 Lemma six_digits_spec r : 0 <= r < 1000000 ->
@@ -270,11 +270,13 @@ Proof.
   destruct (trim_zeros_split fp) as (k & Hsplit & _).
   set (dp := trim_zeros fp) in *.
   assert (Hlen : (List.length dp + k = 6)%nat).
-  { rewrite <- Hfl. rewrite Hsplit at 2. rewrite app_length, repeat_length. reflexivity. }
+  { pose proof (f_equal (@List.length Z) Hsplit) as Hsl.
+    rewrite app_length, repeat_length in Hsl. lia. }
   assert (Hdpd : forallb is_digit dp = true).
-  { rewrite Hsplit, forallb_app' in Hfd. apply andb_prop in Hfd. tauto. }
+  { pose proof Hfd as Hfd'. rewrite Hsplit, forallb_app' in Hfd'. apply andb_prop in Hfd'. tauto. }
   assert (Hfpv : uint_value dp * 10 ^ Z.of_nat k = r).
-  { rewrite <- Hfv. rewrite Hsplit at 2. rewrite uint_value_app, repeat_length, uint_value_zeros. lia. }
+  { rewrite <- Hfv. pose proof (f_equal uint_value Hsplit) as Hsv.
+    rewrite uint_value_app, repeat_length, uint_value_zeros in Hsv. lia. }
   (* NewFromString *)
   assert (Hnew : new_from_string (ip ++ [ch_dot] ++ fp) =
                  Some (q * 10 ^ Z.of_nat (List.length dp) + uint_value dp, - Z.of_nat (List.length dp))).
@@ -314,7 +316,8 @@ Lemma parse_uint_text s v : parse_uint s = Some v -> digits_text s /\ v = uint_v
 Proof.
   unfold parse_uint, digits_text. destruct s as [|c r]; [discriminate|].
   destruct (forallb is_digit (c :: r)) eqn:E; [|discriminate].
-  intros H. injection H as <-. repeat split; [discriminate|].
+  intros H. assert (Hv : v = uint_value (c :: r)) by congruence.
+  split; [split; [discriminate|reflexivity]|exact Hv].
 Qed.
 
 Lemma parse_int_text s v : parse_int s = Some v -> int_text s v.
@@ -381,7 +384,7 @@ Proof.
     destruct Hm as (x & Hx & ->).
     destruct (trim_zeros_split p1) as (k & Hsp & Hend).
     exists p0, (trim_zeros p1), k. split.
-    { rewrite <- Hsp. f_equal. f_equal. unfold is_dot in Hx. unfold ch_dot. lia. }
+    { rewrite <- Hsp. f_equal. f_equal. apply Z.eqb_eq. exact Hx. }
     split.
     { rewrite forallb_app', Hp0. cbn [andb].
       apply existsb_forallb_neg in Ex. rewrite Hsp, forallb_app' in Ex.
@@ -393,3 +396,51 @@ Proof.
     exists p0, e0. split; [exact Hmant|]. split; [exact Hexp|]. left.
     split; [exact Hp0|]. split; [apply parse_int_text; exact Ep|reflexivity].
 Qed.
+
+Lemma trim_zeros_canon dp k :
+  (dp = [] \/ exists d c, dp = d ++ [c] /\ c <> ch_0) ->
+  trim_zeros (dp ++ repeat ch_0 k) = dp.
+Proof.
+  intros Hend. unfold trim_zeros. rewrite rev_app_distr, rev_repeat'.
+  rewrite map_app, map_repeat'. change (ch_0 - 48) with 0.
+  assert (Hnz : nz_head (map (fun c => c - 48) (rev dp))).
+  { destruct Hend as [->|(d & c & -> & Hc)]; [exact I|].
+    rewrite rev_app_distr. cbn [rev app map nz_head]. unfold ch_0 in Hc. lia. }
+  rewrite (lead_zeros_app k _ Hnz).
+  rewrite (skipn_app_exact _ _ _ (repeat_length ch_0 k)). apply rev_involutive.
+Qed.
+
+(* ... and everything of that shape is accepted, with that value and exponent *)
+Theorem text_new_from_string s v e : decimal_text s v e -> new_from_string s = Some (v, e).
+Proof.
+  unfold decimal_text. intros (mant & e0 & Hmant & Hexp & Hbody).
+  unfold new_from_string.
+  assert (Hsplit : exists etxt, split_first is_exp_char s = (mant, etxt) /\
+            match etxt with
+            | None => Some 0
+            | Some es => match parse_int es with
+                         | Some e1 => if in_int32 e1 then Some e1 else None
+                         | None => None
+                         end
+            end = Some e0).
+  { destruct Hexp as [[-> ->]|(x & es & Hx & -> & Hes & Hr)].
+    - exists None. split; [apply split_first_none; exact Hmant|reflexivity].
+    - exists (Some es). split; [apply split_first_some; assumption|].
+      rewrite (int_text_parse _ _ Hes).
+      replace (in_int32 e0) with true by (unfold in_int32; lia). reflexivity. }
+  destruct Hsplit as (etxt & -> & ->).
+  destruct Hbody as [(Hnd & Hv & ->)|(p0 & dp & k & -> & Hnd & Hend & Hv & -> & Hr)].
+  - rewrite (split_first_none _ _ Hnd). rewrite (int_text_parse _ _ Hv). reflexivity.
+  - rewrite forallb_app' in Hnd. apply andb_prop in Hnd. destruct Hnd as [Hp0 Hdp].
+    rewrite split_first_some; [|exact Hp0|reflexivity].
+    assert (Hnodot : existsb is_dot (dp ++ repeat ch_0 k) = false).
+    { apply forallb_existsb_neg. rewrite forallb_app', Hdp. cbn [andb].
+      clear. induction k as [|k IH]; [reflexivity|]. cbn [repeat forallb]. now rewrite IH. }
+    rewrite Hnodot. rewrite (trim_zeros_canon dp k Hend).
+    rewrite (int_text_parse _ _ Hv).
+    replace (in_int32 (e0 - Z.of_nat (List.length dp))) with true by (unfold in_int32; lia).
+    reflexivity.
+Qed.
+
+Theorem new_from_string_iff s v e : new_from_string s = Some (v, e) <-> decimal_text s v e.
+Proof. split; [apply new_from_string_text|apply text_new_from_string]. Qed.
